@@ -1137,7 +1137,7 @@ func evaluate(c *hx.Ctx, or *hx.Oracle, sc *Script) []finding {
 	return fs
 }
 
-func selfTestCorruption() {
+func selfTestCorruption(c *hx.Ctx) {
 	n := chain.NewNode(nil, true)
 	b0, err := n.Finalise(spec(0, 1))
 	hx.Must(err)
@@ -1152,7 +1152,11 @@ func selfTestCorruption() {
 	for k := 1; k <= nCorruptKinds; k++ {
 		t := copyBuilt(b1, k)
 		if _, err := v.BC.SanityCheckNewHeight(t.Block, t.StateUpdate, t.NewClasses); err == nil {
-			hx.Fatalf("corruption kind %d passes SanityCheckNewHeight: the generator would not exercise rejection", k)
+			// not a harness problem: the genuine block 1 was verified a moment ago (and not stored); a copy with one
+			// committed field altered now passes verification - a block that did not pass full verification can be stored
+			c.Violation(fmt.Sprintf("verification:tampered-block-passes-sanity-check-after-genuine-one:kind-%d", k),
+				fmt.Sprintf("follower at head 0: SanityCheckNewHeight(genuine block 1) ok (block not stored), then SanityCheckNewHeight(copy of block 1 with corruption kind %d: 1 tx count, 2 timestamp, 3 header hash, 4 new root, 5 extra storage write) returns no error", k),
+				map[string]any{"self_test": "verify-genuine-then-tampered", "kind": k}, false)
 		}
 		if *t.Block.ParentHash != *b1.Block.ParentHash || t.Block.Number != 1 {
 			hx.Fatalf("corruption kind %d alters linkage fields", k)
@@ -1186,7 +1190,7 @@ func main() {
 	c := hx.NewCtx("C06")
 	or := hx.StartOracle(c.OraclePath)
 	defer or.Close()
-	selfTestCorruption()
+	selfTestCorruption(c)
 	report := func(sc *Script, fs []finding) {
 		for _, f := range fs {
 			c.Violation(f.class, fmt.Sprintf("script %s procs=%d: %s", sc.Name, sc.Procs, f.what), sc, f.noInput)
